@@ -197,6 +197,13 @@ def run_case(case, rec):
         b.elements
     except Exception:
         pass
+    # the same pairing with another sequence, decomposed in the same process
+    if pairs and int(core.chash(case)[:2], 16) % 2 == 0:
+        seq2 = "".join("UGCA"[(i * 7 + n) % 4] for i in range(n))
+        try:
+            mon2d.make_bpseq(n, pairs, seq2).elements
+        except Exception:
+            pass
 
 
 def classify(v):
